@@ -4,7 +4,127 @@ package main
 
 func init() {
 	registerProp(&Property{
+		ID: "C01", Kind: "necessary structural clauses",
+		Tech:  "effect summaries + CFG/SSA lints (iterator invalidation, shift bounds, normaliser order, recursion guards, iteration caps, inverse pairs)",
+		Rules: []string{"LANG-0", "ITER-1", "SHIFT-1", "ORD-4", "REC-1", "CAP-1", "EFF-2", "ORD-2"},
+		Explanation: "Panic-freedom and termination of network simplex, weighted median, the compaction algorithms, the funnel and the spline fitter quantify over run-time values; no sound bound is in reach, so the check decides necessary clauses that are visible in the shape of the code: " +
+			"ITER-1 no loop removes the element it is visiting from the adjacency/edge list it iterates (skipped edges left the graph cyclic -> 'still cyclic' panic); SHIFT-1 no unbounded shift (layer masks collapsed at 64 layers -> matrix index panic); " +
+			"ORD-4 layers stay >= 0 after normalisation (negative layers index the layer slice); REC-1 every recursive traversal has a mark-and-test guard or a reviewed termination argument; CAP-1 the two documented iteration caps exist and depend on their options; " +
+			"EFF-2 + ORD-2 self-loops are out of all three lists while the pipeline runs and back afterwards, and every phase runs on a connected component in phase order. " +
+			"Not decided: explicit panic sites guarded by run-time preconditions, index/nil safety in general, termination of feasibleTree, transpose, placeBlock, the funnel loops and the predecessor walk in geom.Shortest, memory budgets.",
+		Assumptions: []string{"clauses are necessary, not sufficient, for the property", "REC-1's reviewed table (5 functions) is correct"},
+	})
+	registerProp(&Property{
+		ID: "C02", Kind: "necessary structural clauses",
+		Tech:  "dominance/ordering rules on Layout, effect-contract checks (Reverse involution, inverse pairs), field-ownership table, typed-AST output mapping",
+		Rules: []string{"ORD-2", "ORD-3", "EFF-1", "EFF-2", "PAIR-2", "PAIR-3", "OWN-1"},
+		Explanation: "Decides the undo structure and the output mapping, not the multiset equality itself: ORD-2 restore and un-reverse happen after the pipeline and before collection; EFF-1 Reverse is an involution on direction/flag/adjacency; EFF-2 fragments and self-loops: every add has its remove; " +
+			"PAIR-2 un-reverse exactly the flagged edges; PAIR-3 ID/direction/size copied from the right fields, helper nodes filtered unless requested, no other node or edge dropped; OWN-1 Edge.Points written only by routers (which never see self-loops), Node.W/H written only by the two option closures, IsVirtual/ID only at construction; " +
+			"ORD-3 fixed size first, per-node override second and only for listed nodes. Not decided: that break/merge are exact inverses on every chain (the count of edges).",
+		Assumptions: []string{"clauses are necessary, not sufficient"},
+	})
+	registerProp(&Property{
+		ID: "C03", Kind: "necessary structural clauses (band clause sufficient with AFF-5)",
+		Tech:  "symbolic affine execution of the Y assignment, sibling-agreement on positioners, ownership table, reversal-guard dominance, running-extremum lint",
+		Rules: []string{"AFF-5", "EFF-3", "OWN-1", "PAIR-2", "EFF-1", "ORD-5", "AGG-1", "AFF-8", "ORD-4"},
+		Explanation: "AFF-5 (all nodes of a layer get one Y; the next band starts layer.H + LayerSpacing lower) and EFF-3 (every positioner makes layer.H the max node height) give the band clause for every input. OWN-1: Layer only changes in phase 2, so bands are the layering; PAIR-2 + EFF-1 + OWN-1: ArrowHeadStart == IsReversed, toggled only by Reverse; " +
+			"ORD-5 acyclic inputs are never reversed; AGG-1/AFF-8 longest-path layers are computed from the final maximum; ORD-4 layers stay >= 0. Not decided: feasibility (span >= 1) of network simplex through tree construction, pivots and balancing.",
+		Assumptions: []string{"floating-point sums are exact for the band clause up to rounding"},
+	})
+	registerProp(&Property{
+		ID: "C04", Kind: "necessary structural clauses (VAlign/PackRight sufficient)",
+		Tech:  "symbolic affine execution (recurrences of VAlign/PackRight, separation dominance of the NS positioner, Y assignment, component shift), ownership table",
+		Rules: []string{"AFF-4", "AFF-7", "FLOW-1", "AFF-5", "EFF-3", "OWN-1", "ORD-4"},
+		Explanation: "AFF-4: VAlign and PackRight place neighbours exactly W + NodeSpacing apart, so no overlap and >= spacing for all widths >= 0; AFF-7: the NetworkSimplex positioner's separation constraint dominates W_left + spacing; FLOW-1 (with AFF-6): the next component starts at the rightmost edge + spacing; " +
+			"AFF-5/EFF-3: vertical disjointness of bands; OWN-1: X/Y only from phase 4; ORD-4: X = auxiliary layer >= 0. Not decided: SinkColoring's placeBlock fix-point (the default positioner), finiteness, the integer rounding of the auxiliary graph, that the last node of a layer is the rightmost.",
+		Assumptions: []string{"sizes and spacings are finite and non-negative (property hypothesis)"},
+	})
+	registerProp(&Property{
+		ID: "C05", Kind: "necessary structural clauses",
+		Tech:  "symbolic affine execution of the route anchors, SSA value-identity of the arrowhead flag, typed-AST output mapping, forward slice of the component shift",
+		Rules: []string{"AFF-1", "PAIR-2", "PAIR-3", "PAIR-4", "FLOW-1"},
+		Explanation: "AFF-1: the first point of every non-flat route is (n.X + W/2, n.Y + H) of ns[0] and the last is (n.X + W/2, n.Y) of ns[len-1] for Straight, Polyline, Ortho and the 2-point spline; PAIR-2: flag = reversed, so after UnreverseEdges the flagged end is ToID; PAIR-3 output mapping; PAIR-4 route ends are real nodes; " +
+			"FLOW-1/AFF-6: points are shifted in x exactly like their nodes. Not decided: that ns[0] is the upper node on every input (depends on layering), fitted splines, finiteness.",
+		Assumptions: []string{"layering is feasible (C03, undecided part)"},
+	})
+	registerProp(&Property{
+		ID: "C06", Core: []string{"AFF-2", "AFF-3"}, Kind: "necessary structural clauses",
+		Tech:  "symbolic affine execution of the routers (point-sequence shapes, orthogonality as shared coordinate expressions), SSA value-identity for spline joining",
+		Rules: []string{"AFF-2", "AFF-3", "AFF-9", "OWN-1"},
+		Explanation: "AFF-2: Straight yields exactly 2 points; Polyline yields [start, one point per inner route node at (n.X + W/2, n.Y + layerH/2), end]; Splines append 4-point pieces; AFF-3: within one orthogonal elbow consecutive points share an identical x or y expression and consecutive elbows share x; " +
+			"AFF-9: spline pieces join (shared split point and tangent, p0/p3 from the path ends, pieces emitted reversed while iterating backward); OWN-1: helper nodes keep zero size, so the bend x is the helper node's x in the output. Not decided: 'never upward' and 'no bend inside a node rectangle' (need C03/C04 numerically).",
+		Assumptions: []string{"flat (same-layer) edges are outside the decided shapes"},
+	})
+	registerProp(&Property{
+		ID: "C07", Kind: "sufficient static argument",
+		Tech:  "typed-AST classifier of map ranges + call-graph inventory of nondeterminism sources + shared-state inventory",
+		Rules: []string{"LANG-0", "DET-1", "DET-2", "DET-3", "GLOB-1", "RO-1"},
+		Explanation: "With LANG-0 (no goroutines, select, unsafe, reflect) run-to-run variation of a Go program can only come from map iteration order, pointer values observed other than by ==, and clock/random/environment calls. " +
+			"DET-2 closes the last two: the direct library callees of reachable module code are on a reviewed allow-list, time.Now only seeds a per-call RNG whose every draw is guarded by the documented non-deterministic option, and pointer values cannot be ordered or hashed without unsafe. " +
+			"DET-1 classifies every range over a map in reachable code as a set of commutative updates; DET-3 shows the component split keeps input order; GLOB-1 shows no state survives a call; RO-1 shows the caller's edge slice and size map are only read. " +
+			"Not decided: floating-point results are assumed reproducible for identical operation sequences (true for Go on one platform); library internals are trusted by table.",
+		Assumptions: []string{"stdlib functions on the allow-list are deterministic functions of their arguments", "float max/min reductions are order-insensitive (no NaN inputs)", "VTA call graph over-approximates dynamic calls (no reflect/unsafe: LANG-0)"},
+	})
+	registerProp(&Property{
+		ID: "C08", Kind: "sufficient static argument (parametricity)",
+		Tech:  "inter-procedural, field-based taint analysis over SSA (node identifiers as sources, everything but copying as sink)",
+		Rules: []string{"LANG-0", "ID-1"},
+		Explanation: "If, after Populate's de-duplication map (which only tests equality of input strings and is never ranged), an ID value is only copied - into another ID field, into a log string, or used to index the caller's own size map - then no control decision, key or order depends on it, and the layout is equivariant under every injective renaming, helper-looking names included. " +
+			"ID-1 taints every load of an ID field and every string read from the edge slice, propagates through phi, concatenation, boxing, calls/returns, closures, cells and fields, and reports any use other than the enumerated copies. Not decided: nothing beyond the trusted base.",
+		Assumptions: []string{"helper IDs built by the pipeline (\"V<n>\", \"NE<i>\") are themselves only copied (checked: they are stored into Node.ID and flow like any other ID)"},
+	})
+	registerProp(&Property{
+		ID: "C09", Kind: "necessary clauses (independence sufficient given the C07 argument)",
+		Tech:  "map-range classifier, order-preserving-split recogniser, shared-state inventory, forward slice and recurrence of the component shift",
+		Rules: []string{"LANG-0", "DET-1", "DET-3", "GLOB-1", "FLOW-1", "ORD-2"},
+		Explanation: "Independence follows from: the pipeline is a deterministic function of (g, params) (C07 rules), nothing survives from one component to the next (GLOB-1; params by value; algorithm values are stateless), the component handed to the pipeline has the same node/edge/adjacency order as it has as the sole input (DET-3), " +
+			"and the only cross-component quantity, shift, reaches nothing but output x (FLOW-1) by the recurrence shift' = shift + rightmost + NodeSpacing (AFF-6, part of FLOW-1). ORD-2: every component goes through the same pre-processing, pipeline and post-processing. " +
+			"Not decided: the numeric disjointness needs 'last node of a layer is rightmost' and X >= 0 from each positioner (decided only for VAlign/PackRight by AFF-4).",
+		Assumptions: []string{"positioners place the last node of a layer rightmost and at x >= 0 (decided only for VAlign/PackRight)"},
+	})
+	registerProp(&Property{
+		ID: "C10", Kind: "necessary structural clauses",
+		Tech:  "SSA dominance lint on cut values, normaliser-order rule, loop-cap recogniser, balancing-window recogniser, ownership table",
+		Rules: []string{"RECOMP-1", "ORD-4", "CAP-1", "BAL-1", "OWN-1"},
+		Explanation: "RECOMP-1: cut values are a function of the current tree only (no read of a stale value); ORD-4: the top band is 0 after balancing; CAP-1: the pivot loop honours the documented budget; OWN-1: Layer is not touched after phase 2; " +
+			"BAL-1: balancing moves only nodes whose move leaves total length unchanged (in-degree = out-degree) and only inside their feasible window. Not decided: optimality and feasibility of the pivot sequence; contiguity of bands.",
+		Assumptions: []string{"clauses are necessary, not sufficient"},
+	})
+	registerProp(&Property{
+		ID: "C11", Kind: "sufficient modulo traversal completeness",
+		Tech:  "symbolic recurrence extraction (height = max(1, child + Delta), Layer = final max - height) + running-extremum lint + recursion table",
+		Rules: []string{"AFF-8", "AGG-1", "REC-1"},
+		Explanation: "AFF-8: the height accumulator starts at the constant 1 and is updated as max(acc, child + Edge.Delta) over out-edges, and Node.Layer is stored as L - height with L the final value of the max-reduction over all heights (read after the traversal loop); AGG-1: no value derived from the still-growing maximum is stored during the traversal. " +
+			"Together these are the specification of longest-path layering; what remains is that the memoised traversal visits every node (REC-1 table entry). Not decided: that the drawn bands are these layers (C03's band clause) and the orientation it layers (C14's rules).",
+		Assumptions: []string{"the graph is acyclic after phase 1"},
+	})
+	registerProp(&Property{
+		ID: "C12", Kind: "necessary structural clauses",
+		Tech:  "ownership table, phi-pairing analysis of best-so-far, shift-bound lint, affine recurrences of the simple positioners",
+		Rules: []string{"OWN-1", "BEST-1", "SHIFT-1", "AFF-4"},
+		Explanation: "Decides the 'carried unchanged' half: OWN-1 order state (LayerPos, order of Layer.Nodes) changes only in phase 3; BEST-1 the logged number belongs to the restored order; SHIFT-1 the layer filter is exact beyond 64 layers; AFF-4 for VAlign/PackRight x strictly follows order. " +
+			"Not decided: exactness of the accumulator tree and radix sort; order preservation by SinkColoring/NetworkSimplex compaction.",
+		Assumptions: []string{"clauses are necessary, not sufficient"},
+	})
+	registerProp(&Property{
+		ID: "C13", Kind: "necessary structural clauses (thin by design)",
+		Tech:  "phi-pairing analysis of the two seeded runs + ownership table",
+		Rules: []string{"BEST-1", "OWN-1"},
+		Explanation: "Only BEST-1 (the better of the two seeded runs wins, each run keeps the best order it ever saw - necessary, because for an out-tree only the top-seeded run starts at zero crossings) and OWN-1 for order state. " +
+			"Not decided: planarity of the depth-first seed order and single-layer spans of tree edges - graph-theoretic, not visible in code shape.",
+		Assumptions: []string{"thin: decides a necessary clause only"},
+	})
+	registerProp(&Property{
+		ID: "C14", Kind: "necessary structural clauses",
+		Tech:  "CFG pairing of the DFS stack set, effect-summary iterator lint, inter-procedural dominance of the acyclicity test, Reverse contract",
+		Rules: []string{"PAIR-1", "ITER-1", "ORD-5", "EFF-1"},
+		Explanation: "PAIR-1: only edges into the current DFS stack are collected (the stack set is marked before recursing and cleared before every return), and exactly the collected list is reversed; ITER-1: no breaker reverses an edge of the list it is iterating; " +
+			"ORD-5: no reversal before the graph is known to be cyclic, except under an antiparallel witness; EFF-1: Reverse's contract. Not decided: minimality in the presence of the two-node pre-pass on multigraphs.",
+		Assumptions: []string{"clauses are necessary, not sufficient"},
+	})
+	registerProp(&Property{
 		ID: "C15", Kind: "sufficient static argument",
+		Tech:  "shared-state inventory over SSA (every package-level variable, store, address-taking and mutation through a loaded reference) + language-feature inventory",
 		Rules: []string{"LANG-0", "GLOB-1", "RO-1", "DET-2"},
 		Explanation: "A data race needs a location reachable by two goroutines with one writer. Locations a Layout call can reach are its own allocations, its arguments (independent by hypothesis, and only read: RO-1), package-level variables and library internals. " +
 			"GLOB-1 enumerates every package-level variable of the module and every store, address-taking and mutation through a loaded reference: stores exist only in package monitor under the m != nil guard, so with no monitor supplied m stays nil by induction and no store executes; defaultOptions is only loaded. " +
@@ -13,7 +133,24 @@ func init() {
 		Assumptions: []string{"the Go memory model: no race without a shared written location", "stdlib functions on the DET-2 allow-list keep no cross-call mutable state", "callers pass independent sources (property hypothesis)"},
 	})
 	registerProp(&Property{
+		ID: "C16", Core: []string{"AFF-4"}, Kind: "sufficient modulo rounding",
+		Tech:  "symbolic affine execution: difference equations and reductions of the two positioners",
+		Rules: []string{"AFF-4", "OWN-1"},
+		Explanation: "AFF-4, in the affine domain: VAlign - the forward loop over layer.Nodes stores X := c and updates c' - c = n.W + s; c0 = (M - E)/2 where E is the layer's own accumulated extent (sum of n.W plus s under the 'not last' test) and M is a max-reduction of E over all layers, so the extent is sum W + (k-1)s, every layer's midpoint is M/2 and the widest layer starts at 0. " +
+			"PackRight - reverse iteration, c' - c = -(n.W + s), X := c', c0 = 0, so every layer's right end is -s; then X -= L with L the min-reduction of the final c, so the leftmost X is 0. OWN-1 guarantees nothing else writes X. Not decided: floating-point rounding, which the identities ignore.",
+		Assumptions: []string{"rounding of float sums is ignored"},
+	})
+	registerProp(&Property{
+		ID: "C17", Core: []string{"DIM-1"}, Kind: "sufficient static argument",
+		Tech:  "dimension (unit) inference by unification over the typed AST + read-confinement of lengths",
+		Rules: []string{"LANG-0", "DIM-1", "OWN-2"},
+		Explanation: "IEEE +, -, *, /, min, max, abs, neg and comparisons commute exactly with multiplication by 2^k (no over/underflow). If every float in the in-scope code has a consistent degree (DIM-1), outputs have degree 1, every comparison is between equal degrees (or with 0/Inf), no length is converted to an integer or fed to a non-homogeneous function, " +
+			"and phases 1-3 never read a length (OWN-2), then by induction every degree-1 value scales by the factor and every discrete decision is unchanged. Scope: functions reachable from Layout after cutting the NetworkSimplex positioner and spline routing (excluded by the property) and flatNonConsecutive (absolute offsets; runs only for same-layer edges, which a feasible layering never produces).",
+		Assumptions: []string{"no overflow/underflow for the scale factors in range", "same-layer edges do not occur (feasible layering)"},
+	})
+	registerProp(&Property{
 		ID: "C18", Kind: "sufficient static argument (passive monitor)",
+		Tech:  "effect summaries + visibility + SSA ordering of Set / defer Reset",
 		Rules: []string{"LANG-0", "MON-1", "ORD-1", "GLOB-1"},
 		Explanation: "MON-1: the monitor globals are read only inside package monitor; the functions the pipeline calls there (Set, PrefixFor, Reset, Log) return nothing and modify only the monitor globals; under the m != nil guards only Monitor.Log and Phase()/String() of algorithm values run, and those modify nothing; the options.monitor field flows only into Set. Hence no value computed by the pipeline depends on the presence of a monitor. " +
 			"ORD-1: Set is immediately followed by `defer Reset()` in Layout (so Reset runs on panic too), Set has no other call site, Reset clears all three globals under the m != nil guard only; GLOB-1 shows nothing else writes them. " +
@@ -21,12 +158,12 @@ func init() {
 		Assumptions: []string{"the supplied monitor does not mutate the values it receives", "no goroutines (LANG-0)"},
 	})
 	registerProp(&Property{
-		ID: "C07", Kind: "sufficient static argument",
-		Rules: []string{"LANG-0", "DET-1", "DET-2", "DET-3", "GLOB-1", "RO-1"},
-		Explanation: "With LANG-0 (no goroutines, select, unsafe, reflect) run-to-run variation of a Go program can only come from map iteration order, pointer values observed other than by ==, and clock/random/environment calls. " +
-			"DET-2 closes the last two: the direct library callees of reachable module code are on a reviewed allow-list, time.Now only seeds a per-call RNG whose every draw is guarded by the documented non-deterministic option, and pointer values cannot be ordered or hashed without unsafe. " +
-			"DET-1 classifies every range over a map in reachable code as a set of commutative updates; DET-3 shows the component split keeps input order; GLOB-1 shows no state survives a call; RO-1 shows the caller's edge slice and size map are only read. " +
-			"Not decided: floating-point results are assumed reproducible for identical operation sequences (true for Go on one platform); library internals are trusted by table.",
-		Assumptions: []string{"stdlib functions on the allow-list are deterministic functions of their arguments", "float max/min reductions are order-insensitive (no NaN inputs)", "VTA call graph over-approximates dynamic calls (no reflect/unsafe: LANG-0)"},
+		ID: "C20", Core: []string{"AFF-9"}, Kind: "necessary structural clause (joining only)",
+		Tech:  "SSA value-identity on the recursive spline fitter and the emitting loop",
+		Rules: []string{"AFF-9"},
+		Explanation: "Only the joining clause: the two recursive FitSpline calls take path[:k+1] and path[k:] (shared split point) and pass the same tangent value as last/first tangent; a fitted piece's p0/p3 are path[0]/path[len-1]; execSplines emits each piece reversed while iterating the pieces backward. " +
+			"Not decided: termination of the fitter, containment in the corridor, and the polynomial root finder (numeric case analysis around epsilons).",
+		Assumptions: []string{"thin: decides the joining clause only"},
 	})
+	naReasons["C19"] = "optimality and containment of a geometric shortest path over all real-valued corridors: the deciding facts (deque bounds, dual-graph connectivity, acyclic predecessor map, numeric orientation tests) are run-time values; no clause of the property is visible in the shape of the code, and no sound static bound is in reach of the available tooling"
 }
